@@ -37,6 +37,8 @@ func init() {
 		t := extNewTimer(fr, a).(*value)
 		return (*t).(structure)[0]
 	}
+	externals["(*github.com/tilinna/clock.Timer).Stop"] = func(fr *frame, a []value) value { return true }
+	externals["(*github.com/tilinna/clock.Ticker).Stop"] = nop
 	externals["math/rand.Float64"] = func(fr *frame, a []value) value { return float64(0.5) }
 	externals["math/rand.Int63"] = func(fr *frame, a []value) value { return int64(4) }
 	externals["math/rand.Intn"] = func(fr *frame, a []value) value { return int(0) }
